@@ -15,6 +15,8 @@
 //   LOWP <id>                low-priority tasks staged, then the last processing unit is suspended (known finding).
 //   BLK <id> <seed>          tasks hinted to worker w are BLOCKED (latch / condition variable / sync_wait) when
 //                            suspend_processing_unit_direct(w) is issued; they are released only after the call returned.
+//   YLD <id> <seed>          every other worker is occupied by a non-yielding busy task; tasks on worker w loop on yield() polling a
+//                            flag (or are woken with last worker w after w entered pre_sleep); suspend_processing_unit_direct(w) must return.
 // Monitors (evaluated here, independent of the model): completion ledger (every task exactly once), no task
 // body on a processing unit whose suspend call has returned, calls return (watchdog), tasks complete on the
 // remaining workers without any resume, enqueue happens under the PU lock, hand-shake state sequence.
@@ -686,6 +688,205 @@ static void run_blk(std::string const& id, std::uint64_t seed)
     end_case();
 }
 
+// ---------------------------------------------------------------- YLD
+// "the calls themselves return" / "tasks continue on the remaining workers" when the processing unit that is suspended
+// runs tasks that keep YIELDING (poll a flag with pika::this_thread::yield()), and no other worker is idle: every other
+// worker of the pool is occupied by a NON-yielding busy task (released by a flag), so nobody can steal the re-queued task.
+// A yield re-queues the task with its current worker as hint (schedule_thread_last(hint = this worker, allow_fallback));
+// select_active_pu must then not pick the unit that is on its way to sleep (state pre_sleep), otherwise the worker never
+// finds its queue empty and suspend_processing_unit_direct never returns.
+//   variant y: K tasks hinted to worker w loop on yield(); suspend_processing_unit_direct(w) from an OS thread / a task of
+//              the default pool must return within YLD_BOUND_MS although the flag is set only afterwards;
+//   variant k: K tasks that ran on w are BLOCKED on a latch (last worker = w); a busy task keeps w occupied; the suspend
+//              is issued (w enters pre_sleep), THEN the tasks are woken (wake-up with the last worker as hint) and start
+//              polling with yield(); the busy task on w is released; the call must return.
+// Afterwards: the yielding tasks make progress on the remaining workers once those are released (polls keep rising, never
+// on the suspended unit), finish when the flag is set — before any resume — then w is resumed; ledger.
+// setup=0 (not judged: INCONCLUSIVE) when the busy tasks / pollers did not even start within 8 s (overloaded machine).
+static constexpr int YLD_BOUND_MS = 12000;
+struct YldShared
+{
+    std::atomic<bool> flag{false}, release_all{false}, release_b2{false};
+    std::atomic<bool> release_one[64];
+    std::atomic<int> bstarted{0}, bdone{0}, where[64];
+    std::atomic<int> ystarted{0}, yfinished{0}, yon_target{0}, b2started{0}, b2where{-1};
+    std::atomic<long> polls{0}, polls_on_target_after_request{0}, polls_off_target{0};
+    std::atomic<bool> requested{false};    // the suspend call has been issued
+    pika::latch latch{1};
+    YldShared() { for (auto& x : release_one) x = false; for (auto& x : where) x = -1; }
+};
+static void run_yld(std::string const& id, std::uint64_t seed)
+{
+    Rng r{seed * 0x9e3779b97f4a7c15ULL + 4242};
+    int const w_hint = r.below(NW);
+    int const K = 1 + r.below(3);
+    char const caller = r.below(2) ? 'o' : 'd';
+    char const variant = r.below(3) == 0 ? 'k' : 'y';
+    std::printf("IN YLD %s nw=%d el=%d st=%d seed=%llu w_hint=%d K=%d caller=%c variant=%c\n", id.c_str(), NW, int(EL), int(ST),
+        (unsigned long long) seed, w_hint, K, caller, variant);
+    std::fflush(stdout);
+    static int yld_not_returned = 0;
+    if (yld_not_returned >= 2 || !EL || NW < 2)
+    {
+        std::printf("OUT YLD %s setup=0 skipped=1\n", id.c_str());
+        std::fflush(stdout);
+        return;
+    }
+    begin_case("YLD", id, 150);
+    std::int64_t const T0 = now_ms();
+    std::int64_t t_busy = -1, t_poll = -1, t_call = -1, t_fin = -1;
+    auto sh = std::make_shared<YldShared>();
+    auto sched = ex::thread_pool_scheduler{TP};
+    auto hinted = [&](int h) { return ex::with_hint(sched, pika::execution::thread_schedule_hint(std::int16_t(h))); };
+    // ---- 1. every worker but one gets a busy task that never yields
+    for (int i = 0; i < NW - 1; ++i)
+    {
+        int tid = nsub.fetch_add(1);
+        ex::execute(hinted((w_hint + 1 + i) % NW), [sh, tid, i] {
+            sh->where[i] = int(pika::get_local_worker_thread_num());
+            ++sh->bstarted;
+            while (!sh->release_all.load(std::memory_order_acquire) && !sh->release_one[i].load(std::memory_order_acquire)) { __builtin_ia32_pause(); }
+            ++sh->bdone;
+            ran[tid].fetch_add(1);
+            ndone.fetch_add(1);
+        });
+    }
+    bool setup = wait_cond([&] { return sh->bstarted.load() == NW - 1; }, 8000);
+    t_busy = now_ms() - T0;
+    int target = -1;
+    if (setup)
+    {
+        for (int v = 0; v < NW; ++v)
+        {
+            bool used = false;
+            for (int i = 0; i < NW - 1; ++i) used = used || sh->where[i].load() == v;
+            if (!used) target = v;
+        }
+        setup = target >= 0;
+    }
+    auto poll_loop = [sh](int target_) {
+        while (!sh->flag.load(std::memory_order_acquire))
+        {
+            ++sh->polls;
+            if (pika::this_thread::get_pool() == TP)
+            {
+                std::size_t wn = pika::get_local_worker_thread_num();
+                if (int(wn) == target_) { if (sh->requested.load()) ++sh->polls_on_target_after_request; }
+                else ++sh->polls_off_target;
+                if (wn < 64 && asleep[wn].load()) { ++viol_body_on_suspended; viol_detail_w = int(wn); }
+            }
+            pika::this_thread::yield();
+        }
+    };
+    std::int64_t const base_all = susp_count(-1);
+    // ---- 2. the pollers on the free worker
+    if (setup)
+    {
+        for (int k = 0; k < K; ++k)
+        {
+            int tid = nsub.fetch_add(1);
+            ex::execute(hinted(target), [sh, tid, target, variant, poll_loop] {
+                if (int(pika::get_local_worker_thread_num()) == target) ++sh->yon_target;
+                ++sh->ystarted;
+                if (variant == 'k') sh->latch.wait();
+                poll_loop(target);
+                ++sh->yfinished;
+                ran[tid].fetch_add(1);
+                ndone.fetch_add(1);
+            });
+        }
+        setup = wait_cond([&] { return sh->ystarted.load() == K; }, 8000);
+        if (setup && variant == 'y') setup = wait_cond([&] { return sh->polls.load() > 50L * K; }, 8000);
+        if (setup && variant == 'k')
+        {
+            setup = wait_cond([&] { return susp_count(-1) >= base_all + K; }, 8000);
+            if (setup)
+            {
+                // keep the unit occupied so that it stays in pre_sleep while the blocked tasks are woken
+                int tid = nsub.fetch_add(1);
+                ex::execute(hinted(target), [sh, tid] {
+                    sh->b2where = int(pika::get_local_worker_thread_num());
+                    ++sh->b2started;
+                    while (!sh->release_b2.load(std::memory_order_acquire) && !sh->release_all.load(std::memory_order_acquire)) { __builtin_ia32_pause(); }
+                    ran[tid].fetch_add(1);
+                    ndone.fetch_add(1);
+                });
+                setup = wait_cond([&] { return sh->b2started.load() == 1; }, 8000) && sh->b2where.load() == target;
+            }
+        }
+    }
+    int const yon_target = sh->yon_target.load();
+    t_poll = now_ms() - T0;
+    if (!setup)
+    {
+        // overloaded machine (or the tasks did not land as intended): not judged
+        sh->flag = true; sh->release_all = true; sh->release_b2 = true;
+        tt::sync_wait(ex::schedule(ex::thread_pool_scheduler{DP}) | ex::then([sh] { sh->latch.count_down(1); }));
+        bool all = wait_done(nsub.load(), 60000);
+        std::printf("OUT YLD %s setup=0 skipped=0 bstarted=%d ystarted=%d target=%d all=%d\n", id.c_str(), sh->bstarted.load(), sh->ystarted.load(), target, int(all));
+        std::fflush(stdout);
+        end_case();
+        return;
+    }
+    // ---- 3. the suspend call
+    std::atomic<bool> returned{false};
+    bool e = false;
+    std::atomic<long> ret_us{-1};
+    long const polls_at_request = sh->polls.load();
+    sh->requested = true;
+    auto t0 = std::chrono::steady_clock::now();
+    std::thread s([&] {
+        e = do_op(std::string(1, caller) + "SP" + std::to_string(target));
+        ret_us = long(std::chrono::duration_cast<std::chrono::microseconds>(std::chrono::steady_clock::now() - t0).count());
+        returned = true;
+    });
+    int woke_in_pre_sleep = -1;
+    if (variant == 'k')
+    {
+        // wake the blocked tasks only after the unit has entered pre_sleep (their last worker is `target`)
+        bool pre = wait_cond([&] { return TP->get_scheduler()->get_state(std::size_t(target)).load() == pika::runtime_state::pre_sleep; }, 8000);
+        woke_in_pre_sleep = pre ? 1 : 0;
+        tt::sync_wait(ex::schedule(ex::thread_pool_scheduler{DP}) | ex::then([sh] { sh->latch.count_down(1); }));
+        wait_cond([&] { return susp_count(-1) <= base_all; }, 8000);    // all woken tasks are pending (re-queued) or running
+        sh->release_b2 = true;
+    }
+    bool const ret = wait_flag(returned, YLD_BOUND_MS);
+    t_call = now_ms() - T0;
+    if (!ret) ++yld_not_returned;
+    std::string const st_ret = states_str();
+    long const polls_at_return = sh->polls.load();
+    long const polls_on_target = sh->polls_on_target_after_request.load();
+    if (ret && !e) asleep[target] = true;
+    // ---- 4. progress on the remaining workers once they are released (first one, then all)
+    int progress_one = 0, progress_all = 0;
+    long const off0 = sh->polls_off_target.load();
+    if (ret)
+    {
+        for (int i = 0; i < NW - 1; ++i)
+            if (sh->where[i].load() == (target + 1) % NW) sh->release_one[i] = true;
+        progress_one = wait_cond([&] { return sh->polls_off_target.load() >= off0 + 20L * K; }, 2000) ? 1 : 0;
+    }
+    sh->release_all = true;
+    sh->release_b2 = true;
+    if (ret) progress_all = wait_cond([&] { return sh->polls_off_target.load() >= off0 + 40L * K; }, 10000) ? 1 : 0;
+    // ---- 5. let the pollers finish (before any resume when the call returned)
+    sh->flag = true;
+    if (!ret) wait_flag(returned, 60000);
+    s.join();
+    bool const fin_before_resume = wait_cond([&] { return sh->yfinished.load() == K; }, ret ? 10000 : 1);
+    for (auto& x : asleep) x = false;
+    resume_all_quiet();
+    bool all = wait_done(nsub.load(), 30000);
+    t_fin = now_ms() - T0;
+    std::printf("OUT YLD %s setup=1 variant=%c caller=%c K=%d w=%d on_w=%d returned=%d ret_us=%ld err=%d states_at_return=%s polls_at_request=%ld polls_at_return=%ld "
+                "polls_on_w_after_request=%ld woke_in_pre_sleep=%d progress_one=%d progress_all=%d fin_before_resume=%d all=%d %s body_on_suspended=%d ms_busy=%lld ms_poll=%lld ms_call=%lld ms_fin=%lld\n",
+        id.c_str(), variant, caller, K, target, yon_target, int(ret), ret_us.load(), int(e), st_ret.c_str(), polls_at_request, polls_at_return, polls_on_target,
+        woke_in_pre_sleep, progress_one, progress_all, int(fin_before_resume), int(all), ledger_check().c_str(), viol_body_on_suspended.load(), (long long) t_busy, (long long) t_poll,
+        (long long) t_call, (long long) t_fin);
+    std::fflush(stdout);
+    end_case();
+}
+
 int main(int argc, char** argv)
 {
     if (argc < 7) { std::fprintf(stderr, "usage\n"); return 2; }
@@ -737,6 +938,7 @@ int main(int argc, char** argv)
         else if (f[0] == "GATE" && f.size() >= 3) run_gate(f[1], std::atoi(f[2].c_str()));
         else if (f[0] == "LOWP") run_lowp(f[1]);
         else if (f[0] == "BLK" && f.size() >= 3) run_blk(f[1], std::strtoull(f[2].c_str(), nullptr, 10));
+        else if (f[0] == "YLD" && f.size() >= 3) run_yld(f[1], std::strtoull(f[2].c_str(), nullptr, 10));
     }
     pika::verif::hook.store(nullptr);
     case_deadline_ms = now_ms() + 30000; cur_kind = "EXIT"; cur_id = "shutdown";
